@@ -58,7 +58,7 @@ def cases(draw, tier):
     kind = draw(st.sampled_from(["bits", "dna"]))
     seq = draw(sequences(tier, 2 if kind == "bits" else 4))
     return {"kind": kind, "seq": "".join(map(str, seq)) if kind == "bits" else "".join(o.NUC[x] for x in seq),
-            "pad": draw(st.sampled_from([0, 0, 1, 3, 17]))}
+            "pad": draw(st.sampled_from([0, 0, 1, 3, 17])), "verbose": draw(st.integers(0, 3)) == 0}
 
 
 def evaluate(case):
@@ -73,9 +73,14 @@ def evaluate(case):
     labels = [kind, "len>8" if width > 8 else "len<=8", "zero" if value == 0 else "nonzero"]
     if width >= 49:
         labels.append("len>=49")
+    if case.get("verbose") and kind == "bits":
+        labels.append("verbose")
+        if width >= 200:
+            labels.append("verbose_len>=200")
     if width and value >= base ** width - 4:
         labels.append("near_capacity")
-    to_number = (lambda **kw: dsw.bit_to_number(bit_array=list(symbols), **kw)) if kind == "bits" else \
+    verbose = {"verbose": True} if (case.get("verbose") and kind == "bits") else {}
+    to_number = (lambda **kw: dsw.bit_to_number(bit_array=list(symbols), **dict(kw, **verbose))) if kind == "bits" else \
         (lambda **kw: dsw.dna_to_number(dna_sequence=text, **kw))
     render = (lambda number, n: dsw.number_to_bit(decimal_number=number, bit_length=n)) if kind == "bits" else \
         (lambda number, n: dsw.number_to_dna(decimal_number=number, dna_length=n))
@@ -104,7 +109,8 @@ def evaluate(case):
 
 # ------------------------------------------------------------------------------------------- beyond 4,300 digits
 
-HUGE = ["bit_to_number", "number_to_bit", "dna_to_number", "number_to_dna"]
+HUGE = ["bit_to_number", "number_to_bit", "dna_to_number", "number_to_dna",
+        "int:bit_to_number", "int:number_to_bit", "int:dna_to_number", "int:number_to_dna"]
 
 
 def evaluate_huge(case):
@@ -112,6 +118,28 @@ def evaluate_huge(case):
     rng = random.Random(case["seed"])
     function = case["function"]
     labels = ["huge:" + function]
+    if function.startswith("int:"):
+        # integer-typed path far beyond any recursion depth or machine-word size (cheap: native big ints)
+        width = 150000 if "bit" in function else 40000
+        base = 2 if "bit" in function else 4
+        value = rng.getrandbits(width * (1 if base == 2 else 2)) | (1 << (width * (1 if base == 2 else 2) - 1))
+        symbols = ref_symbols(value, width, base)
+        dna = "".join(o.NUC[x] for x in symbols) if base == 4 else None
+        if function == "int:bit_to_number":
+            got = lib_call(dsw.bit_to_number, bit_array=symbols, is_string=False)
+            ok = not isinstance(got, (Raised, str, bool)) and got == value
+        elif function == "int:number_to_bit":
+            got = lib_call(dsw.number_to_bit, decimal_number=value, bit_length=width)
+            ok = not isinstance(got, Raised) and list(got) == symbols
+        elif function == "int:dna_to_number":
+            got = lib_call(dsw.dna_to_number, dna_sequence=dna, is_string=False)
+            ok = not isinstance(got, (Raised, str, bool)) and got == value
+        else:
+            got = lib_call(dsw.number_to_dna, decimal_number=value, dna_length=width)
+            ok = got == dna
+        if not ok:
+            return bad("%s on a %d-symbol value returned %r" % (function, width, str(got)[:100]), labels)
+        return Outcome(True, True, labels + ["int_path_width>=40000"])
     if function in ("bit_to_number", "number_to_bit"):
         width = 14300
         value = rng.getrandbits(width) | (1 << (width - 1))
@@ -142,11 +170,12 @@ def evaluate_huge(case):
 
 SUBCHECKS = [
     SubCheck("conversions", evaluate, strategy=cases, examples=(4000, 30000), shards=(12, 16),
-             floors={"len>=49": 300, "near_capacity": 150, "zero": 100, "bits": 800, "dna": 800}, rule=RULE),
+             floors={"len>=49": 300, "near_capacity": 150, "zero": 100, "bits": 800, "dna": 800,
+                     "verbose_len>=200": 40}, rule=RULE),
     SubCheck("huge_numbers", evaluate_huge,
-             enum=(lambda tier: 4 if tier == "quick" else 8,
-                   lambda i, tier: {"function": HUGE[i % 4], "seed": 1000 + i}),
-             shards=(4, 8), exhaustive_space="one (quick) / two (thorough) cases per string-typed conversion "
+             enum=(lambda tier: 8 if tier == "quick" else 16,
+                   lambda i, tier: {"function": HUGE[i % 8], "seed": 1000 + i}),
+             shards=(8, 16), exhaustive_space="one (quick) / two (thorough) cases per string-typed conversion "
                                               "function with more than 4,300 decimal digits",
              rule=RULE, timeout=400.0),
 ]
